@@ -930,6 +930,28 @@ def quoted_sink_rule(crate, syn, prop, rule="C04.R4"):
                             how = "container tag, escaped where the attributes are read"
                         elif re.search(r"(Tagged\.Adjacently::content|EnumAttr\.content)$", o) and content_ok:
                             how = "container content, escaped where the attributes are read"
+                    if how is None and cnt == 1 and first < len(t.interps):
+                        # the value may travel in a struct of the crate (`Tagging { name: escaped_name(..) }`): judged where it is filled
+                        nm0, loc0, _ = t.interps[first]
+                        o0 = panics.operand_origin(ib, {"k": "copy", "pl": {"l": loc0, "p": list(t.projs[first] if first < len(t.projs) else [])}})
+                        mcar = re.match(r"^field (\S+)\.(\w+)$", o0)
+                        if mcar and not re.search(r"Attr$|Tagged$", mcar.group(1)):
+                            verdicts = []
+                            for bx in crate.bodies:
+                                for blk in range(bx.n):
+                                    for st in bx.stmts(blk):
+                                        if st["k"] == "assign" and st["rv"]["k"] == "agg" and (st["rv"].get("adt") or "") == mcar.group(1) and mcar.group(2) in (st["rv"].get("fields") or []):
+                                            oo = st["rv"]["ops"][st["rv"]["fields"].index(mcar.group(2))]
+                                            if op_local(oo) is None:
+                                                verdicts.append(False)
+                                                continue
+                                            org2 = origins(bx, op_local(oo), transparent=True, stop=[esc])
+                                            c2 = [x for x in org2 if x["kind"] == "call"]
+                                            verdicts.append(bool(c2) and all(fn_matches(x["t"], esc) for x in c2) and not any(x["kind"] == "arg" for x in org2))
+                            if verdicts and all(verdicts):
+                                how = "escaped where %s is filled" % mcar.group(1)
+                            elif not verdicts:
+                                how = "(carried by %s, which is not built in a readable place - undecided)" % mcar.group(1)
                     if how is None and ib.kind == "Closure" and cnt == 1 and first < len(t.interps) and \
                             panics.operand_origin(ib, {"k": "copy", "pl": {"l": t.interps[first][1], "p": []}}).startswith("param"):
                         how = "(a parameter of a closure: where it comes from is not visible here - undecided)"
